@@ -817,19 +817,22 @@ func (fc *followerController) GetStatus(_ *proto.GetStatusRequest) (*proto.GetSt
 }
 
 func (fc *followerController) DeleteShard(request *proto.DeleteShardRequest) (*proto.DeleteShardResponse, error) {
+	// A request with a stale term is refused without touching the follower
+	fc.Lock()
+	if request.Term < fc.term {
+		fc.log.Warn("Invalid term when deleting shard",
+			slog.Int64("follower-term", fc.term),
+			slog.Int64("new-term", request.Term))
+		fc.Unlock()
+		return nil, constant.ErrInvalidTerm
+	}
+	fc.Unlock()
+
 	fc.cancel()
 	<-fc.applyEntriesDone
 
 	fc.Lock()
 	defer fc.Unlock()
-
-	if request.Term < fc.term {
-		fc.log.Warn("Invalid term when deleting shard",
-			slog.Int64("follower-term", fc.term),
-			slog.Int64("new-term", request.Term))
-		_ = fc.close()
-		return nil, constant.ErrInvalidTerm
-	}
 
 	fc.log.Info("Deleting shard")
 
@@ -841,11 +844,16 @@ func (fc *followerController) DeleteShard(request *proto.DeleteShardRequest) (*p
 		return nil, err
 	}
 
-	// Wipe out both WAL and DB contents
-	if err := multierr.Combine(
-		deleteWal.Delete(),
-		deleteDb.Delete(),
-	); err != nil {
+	// Wipe out both WAL and DB contents. The db is not there after a snapshot
+	// that was not completed, and neither is there after a previous attempt
+	var err error
+	if deleteWal != nil {
+		err = multierr.Append(err, deleteWal.Delete())
+	}
+	if deleteDb != nil {
+		err = multierr.Append(err, deleteDb.Delete())
+	}
+	if err != nil {
 		return nil, err
 	}
 
